@@ -411,6 +411,59 @@ fn verify_extreme_spectra<V: Variant>(ctx: &mut Ctx) {
     t.into_part(ctx, part, "true", "false");
 }
 
+/// The same steering in the coefficient domain: s2 = 1 and h = c - v make s1 = v exactly. v takes one extreme
+/// value (the largest magnitudes +-6144 of the balanced lift, q-1, 1) on a support {all, i = r mod m for
+/// m in 2..=64, either half} and 0 elsewhere: the squared norm then reaches its maximum n * 6144^2 overall and on
+/// every stride class (lane-wise or blocked accumulators in a type too narrow for one variant).
+fn verify_extreme_s1<V: Variant>(ctx: &mut Ctx) {
+    let n = V::N;
+    let salt = [0x43u8; 40];
+    let msg = b"extreme s1";
+    let mut sm = salt.to_vec();
+    sm.extend_from_slice(msg);
+    let c = crate::refmodel::keccak::hash_to_point(&sm, n, None);
+    let mut one = vec![0i64; n];
+    one[0] = 1;
+    let body = crate::refmodel::codec::compress(&one, crate::refmodel::sig_len(n) - 41).unwrap();
+    // supports as (modulus, residue); modulus 1 = everything; (0, 0|1) = lower / upper half
+    let mut supports: Vec<(usize, usize)> = vec![(1, 0), (0, 0), (0, 1)];
+    let mut m = 2;
+    while m <= 64 {
+        for r in 0..m {
+            supports.push((m, r));
+        }
+        m *= 2;
+    }
+    let mut jobs = vec![];
+    for &val in &[6144i64, 6145, 12288, 1, 6143, 6146] {
+        for &sup in &supports {
+            jobs.push((val, sup));
+        }
+    }
+    let t = jobs
+        .par_iter()
+        .map(|&(val, (m, r))| {
+            let mut t = Tally::default();
+            let inside = |i: usize| match m {
+                0 => (i >= n / 2) == (r == 1),
+                _ => i % m == r,
+            };
+            let h: Vec<i64> = (0..n).map(|i| (c[i] - if inside(i) { val } else { 0 }).rem_euclid(12289)).collect();
+            let pkb = keycodec::pk_encode(&h);
+            let mut sigb = vec![0x50 | keycodec::logn(n)];
+            sigb.extend_from_slice(&salt);
+            sigb.extend_from_slice(&body);
+            if let Ok(pk) = V::pk_from_bytes(&pkb) {
+                verify_case::<V>(&mut t, &pk, msg, &sigb);
+            }
+            t
+        })
+        .reduce(Tally::default, reduce);
+    let mut part = Part::new(&format!("verify_extreme_s1_{}", n), "verify with s2 = 1 and a public key h = c - v, so that s1 = v: v is one of {6144, 6145 = -6144, q-1, 1, 6143, 6146} on a support {every index, i = r mod m for m in {2,4,...,64} and every r, lower half, upper half} and 0 elsewhere (the norm accumulators at their maximum, overall and per stride class): returns a boolean, never panics");
+    part.exhaustive = true;
+    t.into_part(ctx, part, "true", "false");
+}
+
 /// verify under every scripted shape of HashToPoint's XOF stream (the message decides the stream; the hook lets
 /// the harness choose it): a boolean, never a panic
 fn verify_under_scripted_hash<V: Variant>(ctx: &mut Ctx, pk: &V::Pk, valid_sig: &[u8], tier: Tier) {
@@ -460,6 +513,7 @@ fn one_variant<V: Variant>(ctx: &mut Ctx, tier: Tier) {
     }
     verify_under_scripted_hash::<V>(ctx, &pk, &valid_sig, tier);
     verify_extreme_spectra::<V>(ctx);
+    verify_extreme_s1::<V>(ctx);
     ctx.sample(json!({"variant": V::N, "decoder":"Signature::from_bytes","len":valid_sig.len(),"header":format!("{:02x}", valid_sig[0]),"result":"Ok"}));
 }
 
